@@ -14,7 +14,8 @@ Extracted syntactically (brace matching on the Rust text with comments and strin
   * to which command handlers the flag is handed (`interrupted` mentioned inside an arm of the command match);
   * interrupt.rs: activate() stores true, Drop stores false, confirmation_prompt_active() loads; the call sites of
     `ConfirmationPromptGuard::activate` in renamify-core and renamify-cli;
-  * lock.rs: acquire registers the path in HELD_LOCKS and release_held_locks removes the registered files.
+  * lock.rs: acquire registers the path in HELD_LOCKS and release_held_locks removes the registered files; both it and
+    LockFile::drop unlink only inside `if owns_lock_file(..)` (content still `pid:timestamp` of this process).
 Raises if main.rs / interrupt.rs do not have the expected shape (broken tie)."""
 import os
 import re
@@ -188,10 +189,31 @@ def extract():
             o = lk.find("{", match_brace(lk, acq.end() - 1))
             ab = lk[o:match_brace(lk, o)]
         held_ok = (bool(re.search(r"HELD_LOCKS", rb)) and bool(re.search(r"remove_file\s*\(", rb)) and
-                   bool(re.search(r"held\s*\.\s*push\s*\(\s*lock_path", ab)))
+                   bool(re.search(r"held\s*\.\s*push\s*\(\s*\(?\s*lock_path", ab)))
+    # ownership check: in release_held_locks and in Drop the remove_file stands inside `if owns_lock_file(..) {`,
+    # and owns_lock_file compares the file content with "<pid>:<timestamp>"
+    def guarded_remove(body):
+        ok = False
+        for m in re.finditer(r"\bif\s+owns_lock_file\s*\([^{]*\{", body):
+            o = m.end() - 1
+            if re.search(r"remove_file\s*\(", body[o:match_brace(body, o)]):
+                ok = True
+        outside = len(re.findall(r"remove_file\s*\(", body))
+        inside = sum(len(re.findall(r"remove_file\s*\(", body[m.end() - 1:match_brace(body, m.end() - 1)]))
+                     for m in re.finditer(r"\bif\s+owns_lock_file\s*\([^{]*\{", body))
+        return ok and outside == inside
+    own_ok = False
+    drp = re.search(r"impl\s+Drop\s+for\s+LockFile\s*\{", lk)
+    own = re.search(r"\bfn\s+owns_lock_file\s*\(", lk)
+    if rel and drp and own:
+        db = lk[drp.end():match_brace(lk, drp.end() - 1)]
+        oo = lk.find("{", match_brace(lk, own.end() - 1))
+        ob = lk[oo:match_brace(lk, oo)]
+        own_ok = (guarded_remove(rb) and guarded_remove(db) and bool(re.search(r"read_to_string\s*\(", ob))
+                  and bool(re.search(r"==", ob)))
     return {"sigint": sigint, "sigterm": sigterm, "extra_handlers": extra_handlers, "scope": scope,
             "code": code, "err_codes": err_codes, "passed": passed,
-            "guard_ok": guard_ok, "users": sorted(users), "held_ok": held_ok}
+            "guard_ok": guard_ok, "users": sorted(users), "held_ok": held_ok, "own_ok": own_ok}
 
 
 def render(f):
@@ -240,6 +262,9 @@ def render(f):
             + str(f["users"] == ["renamify-core/src/operations/rename.rs::get_user_confirmation"]).lower(), "",
             "/-- lock.rs: acquire registers the lock path in HELD_LOCKS; release_held_locks removes every registered file -/",
             f"def heldLocksReleasable : Bool := {str(f['held_ok']).lower()}", "",
+            "/-- lock.rs: release_held_locks and LockFile::drop remove the file only inside `if owns_lock_file(..)`, which compares",
+            "    the file's content with this process's `pid:timestamp` (a read before the unlink; never another process's lock) -/",
+            f"def releaseChecksOwnership : Bool := {str(f['own_ok']).lower()}", "",
             "end Gen.SignalHandlers", ""]
     return "\n".join(out)
 
